@@ -24,6 +24,25 @@ func checkC15(w *World, r *Report) {
 	gv4(w, r)
 	gv5(w, r)
 	gv6(w, r)
+	// Gv-9: the punishment of a voter keeps the tally equal to the recorded voters'
+	// choices: the vote is cancelled before the power changes or the voter is removed
+	// and re-cast afterwards (C14 J-2, the GovProposal.DoPunish obligations)
+	{
+		tmp := NewReport(r.Prop, r.Tier)
+		j2(w, tmp)
+		n := 0
+		for _, o := range tmp.Obs {
+			if o.Rule == "J-2" && (strings.Contains(o.Key, "DoPunish") || strings.Contains(o.Key, "GovProposal.")) {
+				o.Rule = "Gv-9"
+				o.Key = "Gv-9:" + strings.TrimPrefix(o.Key, "J-2:")
+				r.Obs = append(r.Obs, o)
+				n++
+			}
+		}
+		if n < 3 {
+			r.Undecided("Gv-9", "DoPunish", "the rules on GovProposal.DoPunish (C14 J-2) matched fewer than 3 constructs")
+		}
+	}
 	r.Floor("Gv-6", 6, "tally integrity")
 	// Gv-7: the parameters change ONLY through an applied proposal: no in-place 256-bit
 	// operation anywhere in the node writes into a parameter object handed out by an
@@ -235,10 +254,23 @@ func gv3(w *World, r *Report) {
 	}
 	ng := needFn(r, "Gv-3", w, fref{pkgProp, "", "NewGovProposal"})
 	if ng != nil {
-		h := "new(proposal.GovProposal).GovProposalHeader."
-		ok := w.findStore(ng, h+"MajorityPower", "((p4 * 2) / 3)") != nil && w.findStore(ng, h+"TotalVotingPower", "p4") != nil &&
-			w.findStore(ng, h+"EndVotingHeight", "(p2 + p3)") != nil && w.findStore(ng, h+"StartVotingHeight", "p2") != nil &&
-			w.findStore(ng, h+"ApplyingHeight", "p5") != nil && w.findStore(ng, h+"Voters", "p6") != nil && w.findStore(ng, h+"TxHash", "p0") != nil
+		// by field of the header type, wherever the header is assembled (in the proposal
+		// itself or in a local that is copied in), with simple helpers looked through
+		want := map[string]string{"MajorityPower": "((p4 * 2) / 3)", "TotalVotingPower": "p4", "EndVotingHeight": "(p2 + p3)", "StartVotingHeight": "p2", "ApplyingHeight": "p5", "Voters": "p6", "TxHash": "p0"}
+		got := map[string]bool{}
+		ok := true
+		for _, fs := range w.fieldStores(ng) {
+			wv, isH := want[fs.Field.Name()]
+			if !isH || fs.Owner == nil || fs.Owner.Obj().Name() != "GovProposalHeader" {
+				continue
+			}
+			if c := w.CanonDeep(fs.Val); c == wv || w.Canon(fs.Val) == wv {
+				got[fs.Field.Name()] = true
+			} else {
+				ok = false
+			}
+		}
+		ok = ok && len(got) == len(want)
 		r.Check(ok, "Gv-3", "NewGovProposal:header", "majority = total x 2 / 3 (rounded down), end = start + period, voters and heights as given", "the proposal header is not {total, total x 2 / 3, start, start + period, applying, voters}", fnSite(w, ng))
 	}
 	vs := needFn(r, "Gv-3", w, fref{pkgStake, "StakeCtrler", "Validators"})
